@@ -4,9 +4,9 @@ EXTENDS Subject, Json
 
 \* What the CURRENT code does (descriptive configurations refer to these; flip one when the code is repaired).
 DescSweepAborts == FALSE       \* F8 (repaired in /repo b9b69e4)
-DescKeepsDidRows == TRUE       \* F8b
+DescKeepsDidRows == FALSE      \* F8b (repaired in /repo COMMIT_F8b)
 DescBuildOnPending == TRUE     \* F8c
-DescUpdatesDeactivated == TRUE \* F8d
+DescUpdatesDeactivated == FALSE \* F8d (repaired in /repo COMMIT_F8d)
 
 \* behaviour generation: print every complete behaviour as JSON (Hist = TRUE configurations only)
 Emit == (Terminal /\ Hist) => PrintT(ToJson(hist))
